@@ -353,29 +353,38 @@ def numVal : Val → Option (Num × Num)
   | .complex r i => some (numOfFloat r, numOfFloat i)
   | _ => none
 
-mutual
-/-- Python `==` between plain values as `dict` lookup sees it (numbers compare across types) -/
-def pyEq : Val → Val → Bool
+/-- `==` between two values neither of which is a tuple / frozenset / slice -/
+def leafEq (a b : Val) : Bool :=
+  match a, b with
   | .none, .none | .notImpl, .notImpl | .ellipsis, .ellipsis => true
-  | .bytes a, .bytes b => a == b
-  | .str a, .str b => a == b
-  | .tuple a, .tuple b => pyEqL a b
-  | .slice a b c, .slice d e f => pyEq a d && pyEq b e && pyEq c f
-  | .fset a, .fset b => a.length == b.length && pyAllIn a b
-  | a, b =>
+  | .bytes x, .bytes y => x == y
+  | .str x, .str y => x == y
+  | _, _ =>
     match numVal a, numVal b with
     | some (r1, i1), some (r2, i2) => r1.eq r2 && i1.eq i2
     | _, _ => false
+
+mutual
+/-- Python `==` between plain values as `dict` lookup sees it (numbers compare across types) -/
+def pyEq : Val → Val → Bool
+  | .tuple a, v => match v with
+    | .tuple b => pyEqL a b
+    | _ => false
+  | .fset a, v => match v with
+    | .fset b => a.length == b.length && pyAllIn a b
+    | _ => false
+  | .slice a b c, v => match v with
+    | .slice d e f => pyEq a d && pyEq b e && pyEq c f
+    | _ => false
+  | a, b => leafEq a b
 def pyEqL : List Val → List Val → Bool
-  | [], [] => true
-  | x :: xs, y :: ys => pyEq x y && pyEqL xs ys
-  | _, _ => false
+  | [], ys => ys.isEmpty
+  | x :: xs, ys => match ys with
+    | y :: ys' => pyEq x y && pyEqL xs ys'
+    | [] => false
 def pyAllIn : List Val → List Val → Bool
   | [], _ => true
-  | x :: xs, ys => pyMem x ys && pyAllIn xs ys
-def pyMem : Val → List Val → Bool
-  | _, [] => false
-  | x, y :: ys => pyEq x y || pyMem x ys
+  | x :: xs, ys => ys.any (fun y => pyEq x y) && pyAllIn xs ys
 end
 
 /-- `v == n` for a constant natural number -/
@@ -489,73 +498,73 @@ def awaitReply (seq : Nat) : M PV := fun c st fut =>
 
 def idpEq (a b : IdPack) : Bool := a.1 == b.1 && pyEq a.2.1 b.2.1 && pyEq a.2.2 b.2.2
 
-mutual
-/-- the environment finishes the primitive operation in progress, possibly after callbacks -/
-def settle : Nat → Nat → M PV
-  | 0, _ => throwE .notModelled
-  | n + 1, bf => fun c st fut =>
-    match c.env st.clock with
-    | .done (.ret v) => ⟨.ok v, { st with clock := st.clock + 1, log := st.log ++ [.answer (.ret v)] }, fut⟩
-    | .done (.raise x) => ⟨.error x, { st with clock := st.clock + 1, log := st.log ++ [.answer (.raise x)] }, fut⟩
-    | .callback h args =>
-      match request n bf h args c { st with clock := st.clock + 1, log := st.log ++ [.cbmove h args] } fut with
-      | ⟨_, st', fut'⟩ => settle n bf c st' fut'
+/-- `tuple(g(x) for x in xs)` without the tuple -/
+def mapM' {α β : Type} (g : α → M β) : List α → M (List β)
+  | [] => pure []
+  | x :: xs => do
+    let b ← g x
+    let bs ← mapM' g xs
+    pure (b :: bs)
 
-/-- `_box`: by value, as a tuple, as a reference to the peer's own object, or by reference (the object enters the table) -/
-def box : Nat → Nat → PV → M Val
-  | _, 0, _ => throwE .recursionError
-  | _, _ + 1, .imm v => pure (.tuple [.int Gen.Handlers.labelValue, v])
-  | n, f + 1, .tup xs => do
-    let bs ← inGenerator (boxL n f xs)
+/-- `_box`: by value, as a tuple, as a reference to the peer's own object, or by reference (the object enters the
+table).  `s` finishes the `get_id_pack` touch (the environment's answer). -/
+def boxWith (s : M PV) : Nat → PV → M Val
+  | 0, _ => throwE .recursionError
+  | _ + 1, .imm v => pure (.tuple [.int Gen.Handlers.labelValue, v])
+  | f + 1, .tup xs => do
+    let bs ← inGenerator (mapM' (fun x => boxWith s f x) xs)
     pure (.tuple [.int Gen.Handlers.labelTuple, .tuple bs])
-  | _, _ + 1, .proxy nm c i => pure (.tuple [.int Gen.Handlers.labelLocalRef, .tuple [.str nm, c, i]])
-  | n, f + 1, .obj o => do
+  | _ + 1, .proxy nm c i => pure (.tuple [.int Gen.Handlers.labelLocalRef, .tuple [.str nm, c, i]])
+  | _ + 1, .obj o => do
     let st0 ← getSt
     -- `if self._channel.closed: raise EOFError`: no object starts being held for a peer that is gone
     if st0.closed then throwX eofExc else
     push (.touch { kind := .idpack, subj := .obj o })
-    let k ← settle n f
+    let k ← s
     match k with
     | .imm key => do
       addSlot key o
       pure (.tuple [.int Gen.Handlers.labelRemoteRef, key])
     | _ => throwE .notModelled
 
-def boxL : Nat → Nat → List PV → M (List Val)
-  | _, _, [] => pure []
-  | n, f, x :: xs => do
-    let b ← box n f x
-    let bs ← boxL n f xs
-    pure (b :: bs)
-
 /-- `sync_request(h, *args)`: box the arguments, register the callback, write the request, wait -/
-def request : Nat → Nat → Nat → List PV → M PV
-  | n, bf, h, args => do
-    let boxed ← box n bf (mkTuple args)
-    let st ← getSt
-    let seq := st.nextSeq
-    modify (fun st => { st with nextSeq := seq + 1, pending := st.pending ++ [(seq, false)] })
-    let sent ← attempt (sendFrame (.outReq seq h boxed))
-    match sent with
-    | .error x => do
-      modify (fun st => { st with pending := st.pending.filter (fun p => p.1 != seq) })
-      throwX x
-    | .ok _ => awaitReply seq
-end
+def requestWith (s : M PV) (h : Nat) (args : List PV) : M PV := do
+  let c ← getCtx
+  let boxed ← boxWith s c.depth (mkTuple args)
+  let st ← getSt
+  let seq := st.nextSeq
+  modify (fun st => { st with nextSeq := seq + 1, pending := st.pending ++ [(seq, false)] })
+  let sent ← attempt (sendFrame (.outReq seq h boxed))
+  match sent with
+  | .error x => do
+    modify (fun st => { st with pending := st.pending.filter (fun p => p.1 != seq) })
+    throwX x
+  | .ok _ => awaitReply seq
+
+/-- the environment finishes the primitive operation in progress, possibly after callbacks (at most `n`) -/
+def settle : Nat → M PV
+  | 0 => throwE .notModelled
+  | n + 1 => fun c st fut =>
+    match c.env st.clock with
+    | .done (.ret v) => ⟨.ok v, { st with clock := st.clock + 1, log := st.log ++ [.answer (.ret v)] }, fut⟩
+    | .done (.raise x) => ⟨.error x, { st with clock := st.clock + 1, log := st.log ++ [.answer (.raise x)] }, fut⟩
+    | .callback h args =>
+      match requestWith (settle n) h args c { st with clock := st.clock + 1, log := st.log ++ [.cbmove h args] } fut with
+      | ⟨_, st', fut'⟩ => settle n c st' fut'
 
 /-- one primitive operation -/
 def prim (t : Touch) : M PV := do
   push (.touch t)
   let c ← getCtx
-  settle c.maxCb c.depth
+  settle c.maxCb
 
 def boxTop (v : PV) : M Val := do
   let c ← getCtx
-  box c.maxCb c.depth v
+  boxWith (settle c.maxCb) c.depth v
 
 def requestTop (h : Nat) (args : List PV) : M PV := do
   let c ← getCtx
-  request c.maxCb c.depth h args
+  requestWith (settle c.maxCb) h args
 
 /-- truth value of an answer -/
 def PV.truthy : PV → Bool
@@ -577,7 +586,6 @@ def netrefFactory (idp : IdPack) : M Unit := do
     let _ ← prim { kind := .mkclass, subj := .imm (.tuple [.str idp.1, idp.2.1, idp.2.2]), args := [methods] }
     if zeroIid idp.2.2 then modify (fun st => { st with classes := st.classes ++ [idp] }) else pure ()
 
-mutual
 /-- `_unbox(package)` for an arbitrary decoded value -/
 def unbox : Nat → Val → M PV
   | 0, _ => throwE .recursionError
@@ -586,7 +594,7 @@ def unbox : Nat → Val → M PV
     if pyEqNat label Gen.Handlers.labelValue then pure (.imm value)
     else if pyEqNat label Gen.Handlers.labelTuple then do
       let items ← liftE (iterVal value)
-      let xs ← inGenerator (unboxL f items)
+      let xs ← inGenerator (mapM' (fun x => unbox f x) items)
       pure (mkTuple xs)
     else if pyEqNat label Gen.Handlers.labelLocalRef then do
       let o ← tableGet value
@@ -604,13 +612,6 @@ def unbox : Nat → Val → M PV
         modify (fun st => { st with proxies := st.proxies ++ [idp] })
         pure (.proxy idp.1 v1 v2)
     else throwE .valueError
-def unboxL : Nat → List Val → M (List PV)
-  | _, [] => pure []
-  | f, x :: xs => do
-    let a ← unbox f x
-    let as ← unboxL f xs
-    pure (a :: as)
-end
 
 def unboxTop (pkg : Val) : M PV := do
   let c ← getCtx
@@ -639,13 +640,15 @@ def probe (obj : PV) (n : PyStr) : M Bool := do
 /-- the answers to the two `hasattr` probes as a `has` function -/
 def hasOf (c : Config) (n : PyStr) (b1 b2 : Bool) : PyStr → Bool := fun m => if m == twin c n then b1 else b2
 
+def probeIf (b : Bool) (obj : PV) (n : PyStr) : M Bool := if b then probe obj n else pure false
+
 /-- `_check_attr`: `hasattr(obj, prefix + name)` iff the prefix is truthy, `hasattr(obj, name)` iff `plain and has_exposed` -/
 def checkAttrM (obj : PV) (n : PyStr) (op : Op) : M PyStr := do
   let cfg ← getCfg
   if !cfg.perm op then throwE .attributeError
   else do
-    let b1 ← if prefixTruthy cfg then probe obj (twin cfg n) else pure false
-    let b2 ← if plainAllowed cfg n && b1 then probe obj n else pure false
+    let b1 ← probeIf (prefixTruthy cfg) obj (twin cfg n)
+    let b2 ← probeIf (plainAllowed cfg n && b1) obj n
     liftE (checkAttr cfg (hasOf cfg n b1 b2) n op)
 
 def isNone : PV → Bool
@@ -715,24 +718,30 @@ def hGetroot : List PV → M PV
   | [] => do let c ← getCtx; pure (.obj c.root)
   | _ => throwE .typeError
 
+/-- `if slot[1] < count: del self._dict[key] else: slot[1] -= count` for an integer count -/
+def decrefBy (key : Val) (cnt n : Int) : M PV := do
+  modify (fun st => { st with table := if cnt < n then tableRemove st.table key else tableSet st.table key (cnt - n) })
+  pure (.imm .none)
+
+/-- the same after the environment evaluated the comparison and subtraction on a count that is not an int -/
+def decrefOpaque (key : Val) (r : PV) : M PV :=
+  match r with
+  | .imm .none => do modify (fun st => { st with table := tableRemove st.table key }); pure (.imm .none)
+  | .imm (.int m) => do modify (fun st => { st with table := tableSet st.table key m }); pure (.imm .none)
+  | _ => throwE .notModelled
+
 /-- `RefCountingColl.decref(key, count)` -/
 def decref (key : Val) (count : PV) : M PV := do
   let st ← getSt
   match lookupSlot st.table key with
   | none => throwE .keyError
   | some s =>
-    let byInt (n : Int) : M PV := do
-      modify (fun st => { st with table := if s.cnt < n then tableRemove st.table key else tableSet st.table key (s.cnt - n) })
-      pure (.imm .none)
     match count with
-    | .imm (.int n) => byInt n
-    | .imm (.bool b) => byInt (if b then 1 else 0)
+    | .imm (.int n) => decrefBy key s.cnt n
+    | .imm (.bool b) => decrefBy key s.cnt (if b then 1 else 0)
     | .imm (.float _) | .obj _ | .proxy _ _ _ => do
       let r ← prim { kind := .countOp, subj := count, args := [.imm key] }
-      match r with
-      | .imm .none => do modify (fun st => { st with table := tableRemove st.table key }); pure (.imm .none)
-      | .imm (.int m) => do modify (fun st => { st with table := tableSet st.table key m }); pure (.imm .none)
-      | _ => throwE .notModelled
+      decrefOpaque key r
     | _ => throwE .typeError
 
 def hDelCore (obj count : PV) : M PV := do
@@ -832,13 +841,17 @@ def truth (x : PV) : M Bool :=
     let r ← prim { kind := .truth, subj := other }
     pure r.truthy
 
+/-- `if exc: try: raise exc except Exception: exc, typ, tb = sys.exc_info() else: typ = tb = None` -/
+def ctxTriple (t : Bool) (exc : PV) : M (List PV) :=
+  if t then do
+    let r ← prim { kind := .raise_, subj := exc }
+    splat r
+  else pure [exc, .imm .none, .imm .none]
+
 def hCtxexit : List PV → M PV
   | [o, exc] => do
     let t ← truth exc
-    let triple ← if t then (do
-        let r ← prim { kind := .raise_, subj := exc }
-        splat r)
-      else pure [exc, .imm .none, .imm .none]
+    let triple ← ctxTriple t exc
     let f ← accessAttr o (.imm (.str (cp "__exit__"))) [] .get
     prim { kind := .apply, subj := f, args := triple }
   | _ => throwE .typeError
@@ -983,30 +996,40 @@ def seqCallback (seq : Val) (a : Ans) : M Unit := fun _ st fut =>
 
 def strOfPy (s : PyStr) : String := String.ofList (s.map Char.ofNat)
 
+/-- `if import_custom_exceptions and modname not in sys.modules: try: __import__(modname) except Exception: pass` -/
+def importGate (modname : Val) : M Unit := do
+  let cfg ← getCfg
+  if cfg.importCustomExc then do
+    let present ← prim { kind := .modPresent, subj := .imm modname }
+    if !present.truthy then do
+      let r ← attempt (prim { kind := .import_, subj := .imm modname })
+      match r with
+      | .error x => if x.isException then pure () else throwX x
+      | .ok _ => pure ()
+    else pure ()
+  else pure ()
+
+/-- where `vinegar.load` looks the class up: in `sys.modules[modname]` iff `instantiate_custom_exceptions`,
+else among the builtins iff `modname == "builtins"`, else nowhere -/
+def classGate (modname clsname : Val) : M PV := do
+  let cfg ← getCfg
+  if cfg.instantiateCustomExc then do
+    let present ← prim { kind := .modPresent, subj := .imm modname }
+    if present.truthy then prim { kind := .modattr, subj := .imm modname, args := [.imm clsname] }
+    else pure (.imm .none)
+  else if pyEq modname (.str (cp "builtins")) then prim { kind := .builtinAttr, subj := .imm clsname }
+  else pure (.imm .none)
+
 /-- `vinegar.load(val, import_custom_exceptions, instantiate_custom_exceptions, …)`: what the waiter will see raised -/
-def loadExc (val : Val) : M Ans := do
+def loadExc (val : Val) : M Ans :=
   if pyEqNat val Gen.Handlers.excStopIteration then pure (.raise { cls := "StopIteration" })
   else match val with
   | .str _ => pure (.raise { cls := "TypeError" })
   | _ => do
     let (head, args, attrs, tb) ← liftE (unpack4 val)
     let (modname, clsname) ← liftE (unpack2 head)
-    let cfg ← getCfg
-    if cfg.importCustomExc then do
-        let present ← prim { kind := .modPresent, subj := .imm modname }
-        if !present.truthy then do
-          let r ← attempt (prim { kind := .import_, subj := .imm modname })
-          match r with
-          | .error x => if x.isException then pure () else throwX x
-          | .ok _ => pure ()
-        else pure ()
-      else pure ()
-    let cls ← if cfg.instantiateCustomExc then do
-        let present ← prim { kind := .modPresent, subj := .imm modname }
-        if present.truthy then prim { kind := .modattr, subj := .imm modname, args := [.imm clsname] }
-        else pure (.imm .none)
-      else if pyEq modname (.str (cp "builtins")) then prim { kind := .builtinAttr, subj := .imm clsname }
-      else pure (.imm .none)
+    importGate modname
+    let cls ← classGate modname clsname
     let r ← prim { kind := .buildExc, subj := cls, args := [.imm modname, .imm clsname, .imm args, .imm attrs, .imm tb] }
     match r with
     | .imm (.str nm) => pure (.raise { cls := strOfPy nm })
